@@ -44,7 +44,7 @@ SOFTMAX = Parameterization(activation="softmax", initialization="normal")
 
 
 def plan(tier, seed):
-    n = 48 if tier == "quick" else 3000
+    n = 48 if tier == "quick" else 9000
     kinds = ["rg", "rg", "rg", "rg", "image", "tabular", "hmm", "ff", "cp", "tucker"]
     return [{"kind": kinds[k % len(kinds)], "k": k, "seed": seed} for k in range(n)]
 
